@@ -69,6 +69,7 @@ type node struct {
 	vsCache map[string]*types.VoteSet
 	probes  []func() // cheap liveness probes, each must return within its deadline
 	pPeer   *p2pmock.Peer
+	stuck   bool
 }
 
 var nopLogger = log.NewNopLogger()
@@ -308,6 +309,9 @@ func (n *node) close() {
 // receive delivers bytes to the reactor the way MConnection's recvRoutine does: a panic is caught
 // by the connection's _recover and turns into a peer error.
 func (n *node) receive(ch byte, b []byte) string {
+	if n.stuck {
+		return "STUCK"
+	}
 	if !n.peer.IsRunning() {
 		return "peer-gone"
 	}
@@ -333,10 +337,12 @@ func (n *node) receive(ch byte, b []byte) string {
 		// liveness: after EVERY message the node's state is readable; after a message that cost the
 		// peer its connection also a well-formed message of another peer is handled
 		if w := n.probe(v != "ok"); w != "" {
+			n.stuck = true
 			return "WEDGED-after-" + v + ":" + w
 		}
 		return v
 	case <-time.After(10 * time.Second):
+		n.stuck = true
 		return "STUCK"
 	}
 }
@@ -854,20 +860,33 @@ func blockID(r *rand.Rand, ok bool) tmproto.BlockID {
 }
 
 type rgen struct {
-	n   *node
-	ops []string
+	n    *node
+	ops  []string
+	dead bool // the node process would be dead (panic outside recover) or is stuck: stop generating
 }
 
 // emit runs the message on the generator's own node to learn the verdict, records the op
 func (g *rgen) msg(ch byte, kind, fields string, b []byte) string {
+	if g.dead {
+		return "dead"
+	}
 	v := g.n.receive(ch, b)
+	if v == "STUCK" || strings.HasPrefix(v, "WEDGED") {
+		g.dead = true
+	}
 	g.ops = append(g.ops, fmt.Sprintf("rmsg ch=%d kind=%s %sexpect=%s bytes=%s", ch, kind, fields, v, hx(b)))
 	note("reactor-" + g.n.kind + "-" + kind + "-" + v)
 	return v
 }
 
 func (g *rgen) gossip(what string) {
+	if g.dead {
+		return
+	}
 	v := g.n.gossip(what)
+	if strings.HasPrefix(v, "PANIC") {
+		g.dead = true
+	}
 	if i := strings.IndexByte(v, ':'); i > 0 {
 		v = v[:i]
 	}
